@@ -91,6 +91,41 @@ def r1(ctx, F, hub):
         ret_o = rfl.origins(0)
         good = good and any(o.kind == 'call' and o.key == 'std::cmp::PartialEq::eq' for o in ret_o)
     magic_val = F.consts.get('wire::MAGIC', {})
+    if not good and len(exact) == 1 and not eqs:
+        # the prologue is PARSED (tag + revision digit) instead of compared whole.  Exactly one prologue is valid, so whatever is
+        # parsed out must be pinned to one value: an order test with one open side (`rev >= MIN_VERSION`) accepts several
+        # prologues - reported; a closed range whose two ends are the same constant pins it - the rest of the parse (that the
+        # tag bytes are compared) is not decided.
+        wb = work_body(F, 'wire::read_magic', ['std::io::Read::read_exact']) or rm
+        wfl = flow_of(wb)
+        lower = upper = pinned = False
+        bodies_ = [wb] + [x for x in F.nested('wire::read_magic') if x.path != wb.path]
+        for xb in bodies_:
+            xfl = flow_of(xb)
+            for bi in xfl.cfg.reachable():
+                for st in xb.blocks[bi]['stmts']:
+                    rv = st['rv']
+                    isc = lambda o_: o_['k'] == 'const' or (lambda os_: bool(os_) and all(x.kind == 'const' for x in os_))(xfl.origins(o_))
+                    if rv['k'] == 'bin' and rv['op'] in ('Ge', 'Gt', 'Le', 'Lt') and (isc(rv['ops'][0]) != isc(rv['ops'][1])):
+                        c_right = isc(rv['ops'][1])
+                        is_lower = (rv['op'] in ('Ge', 'Gt')) == c_right
+                        lower, upper = lower or is_lower, upper or not is_lower
+        for xb in bodies_:
+          wfl = flow_of(xb)
+          for cb, ct in wfl.calls(lambda c: c == 'std::ops::RangeInclusive::<Idx>::contains'):
+            for o in wfl.origins(ct['args'][0]):
+                if o.kind == 'call' and str(o.key) == 'std::ops::RangeInclusive::<Idx>::new' and o.bb is not None:
+                    lo_, hi_ = call_arg_origins(wfl, o.bb, 0), call_arg_origins(wfl, o.bb, 1)
+                    if lo_ and hi_ and all(x.kind == 'const' for x in lo_ | hi_) and {x.key for x in lo_} == {x.key for x in hi_} and len({x.key for x in lo_}) == 1:
+                        pinned = True
+                    else:
+                        lower = upper = True
+        if lower and not upper and not pinned:
+            ctx.bad('C12.R1', 'read_magic:open-ended', 'read_magic parses a revision out of the prologue and accepts every value from a minimum upwards: prologues other than '
+                    'COPIA1 are let through, and the requests behind them are executed', loc(rm, rm.lo))
+        else:
+            ctx.undecided('C12.R1', 'read_magic parses the prologue instead of comparing it with MAGIC: that exactly COPIA1 is accepted is not decided')
+        return
     ctx.check(good, 'C12.R1', 'read_magic', 'Ok(m == MAGIC) after read_exact of 6 bytes',
               'read_magic no longer returns exactly (prologue == MAGIC)', loc(rm, rm.lo))
 
